@@ -467,6 +467,8 @@ class Engine(object):
     def coerce(self, sv, ty):
         if sv.ty == ty:
             return sv
+        if ty == ANYFUNC:
+            return sv           # an opaque Python-level value (function reference, tuple of them): passed through as it is
         if ty == VAL:
             return SV(VAL, self.to_val(sv))
         if sv.ty == NONE and is_reflike(ty):
